@@ -842,3 +842,153 @@ Proof.
   do 2 eexists. split; [reflexivity|]. split; [vm_compute; reflexivity|].
   repeat (split; [reflexivity|]). vm_compute. discriminate.
 Qed.
+
+(* ================================================================ 8. the kind of a reference is kept *)
+(* a segment that does not begin with "/" *)
+Definition head_ok (s : text) : bool := match s with c :: _ => negb (c =? 47) | [] => true end.
+
+Lemma unreserved_not_slash v : is_unreserved_code v = true -> (v =? 47) = false.
+Proof. arith. Qed.
+
+Lemma head_ok_fix s : head_ok s = true -> head_ok (fix_pct s) = true.
+Proof.
+  destruct s as [|c [|x [|y r]]]; try (intros H; exact H).
+  intros H. cbn [fix_pct]. destruct (c =? 37); [|exact H].
+  destruct (is_unreserved_code _) eqn:Eu; [|reflexivity].
+  cbn [head_ok]. rewrite (unreserved_not_slash _ Eu). reflexivity.
+Qed.
+
+Lemma noslash_head_ok s : noslash s = true -> head_ok s = true.
+Proof.
+  destruct s as [|c r]; [reflexivity|]. intros H. apply noslash_cons in H. destruct H as [Hc _].
+  apply N.eqb_neq in Hc. cbn [head_ok]. rewrite Hc. reflexivity.
+Qed.
+
+(* whatever the mode, the walk only keeps segments it was given, or adds an empty one *)
+Lemma walk_forallb_any (P : text -> bool) rel h a : P [] = true -> forall rest kept,
+  forallb P kept = true -> forallb P rest = true -> forallb P (rds_walk rel h a kept rest) = true.
+Proof.
+  intros HP.
+  assert (forall k x, forallb P k = true -> P x = true -> forallb P (rev (x :: k)) = true) as Hrev.
+  { intros k x Hk Hx. rewrite forallb_rev. cbn [forallb]. rewrite Hx, Hk. reflexivity. }
+  induction rest as [|w nxt IH]; intros kept Hk Hr.
+  - cbn [rds_walk]. rewrite forallb_rev. exact Hk.
+  - cbn [forallb] in Hr. apply andb_prop in Hr. destruct Hr as [Hw Hn]. cbn [rds_walk].
+    assert (forallb P (w :: kept) = true) as Hpush by (cbn [forallb]; rewrite Hw, Hk; reflexivity).
+    destruct (seg_dot w).
+    { destruct (rel && _ && _); [apply IH; assumption|].
+      destruct nxt as [|n1 n2]; [|apply IH; assumption].
+      destruct kept as [|p k]; [destruct h; cbn [forallb]; rewrite ?HP; reflexivity|].
+      apply Hrev; assumption. }
+    destruct (seg_dotdot w).
+    { destruct (rel && _); [apply IH; assumption|].
+      destruct kept as [|p [|pp kk]].
+      - destruct nxt as [|n1 n2]; [destruct a; cbn [forallb]; rewrite ?HP; reflexivity|apply IH; assumption].
+      - destruct nxt as [|n1 n2]; [destruct a; cbn [forallb]; rewrite ?HP; reflexivity|apply IH; auto].
+      - cbn [forallb] in Hk. apply andb_prop in Hk. destruct Hk as [_ Hk'].
+        destruct nxt as [|n1 n2]; [apply Hrev; [exact Hk'|exact HP]|apply IH; assumption]. }
+    apply IH; assumption.
+Qed.
+
+Lemma nso_forallb (P : text -> bool) rel h a S : P [] = true ->
+  forallb P (map fix_pct S) = true -> forallb P (norm_segs_of rel h a S) = true.
+Proof.
+  intros HP HS. unfold norm_segs_of. cbv zeta.
+  assert (forallb P (match map fix_pct S with [] => [] | _ => rds_walk rel h a [] (map fix_pct S) end) = true) as Ho.
+  { destruct (map fix_pct S) as [|s0 r0] eqn:E; [reflexivity|]. apply walk_forallb_any; [exact HP|reflexivity|exact HS]. }
+  destruct (negb h); [|exact Ho].
+  match goal with |- forallb P (match ?o with _ => _ end) = true => destruct o as [|[|? ?] [|? ?]] end;
+    try exact Ho. reflexivity.
+Qed.
+
+Lemma nso_head_ok rel h a S : forallb noslash S = true -> forallb head_ok (norm_segs_of rel h a S) = true.
+Proof.
+  intros H. apply nso_forallb; [reflexivity|].
+  rewrite forallb_forall in *. intros x Hx. apply in_map_iff in Hx. destruct Hx as (s & Es & Hs). subst x.
+  apply head_ok_fix. apply noslash_head_ok. apply H. exact Hs.
+Qed.
+
+Lemma path_text_hostless u : is_host_set u = false ->
+  path_text u = (if absolutePath u then [47] else []) ++ join_text (pathSegs u).
+Proof. intros Hh. unfold path_text, path_text_of. rewrite Hh, andb_false_r, orb_false_r. reflexivity. Qed.
+
+(* For a reference with neither scheme nor authority, outside the four shapes: the recomposed path of the
+   normal form is empty / absolute / relative as that of the reference, and the recomposed text reads back
+   with neither a scheme nor an authority. *)
+Theorem kind_kept R :
+  scheme R = None -> is_host_set R = false -> wf R = true ->
+  kf_cancels R = false -> kf_exposes_empty R = false -> kf_exposes_colon R = false -> kf_abs_dslash R = false ->
+  path_kind (normalize 63 R) = path_kind R
+  /\ reads_scheme (normalize 63 R) = false /\ reads_authority (normalize 63 R) = false.
+Proof.
+  intros Hs Hh Hwf Hkc Hke Hkco Hka.
+  destruct (normalized_fields R) as (Esc & _ & _ & _ & _ & _ & _ & Eps & Eab & _ & _ & Ehs). cbv zeta in *.
+  unfold kf_cancels, kf_exposes_empty, kf_exposes_colon, kf_abs_dslash in *.
+  set (NR := normalize 63 R) in *.
+  rewrite Hs in Esc. cbn [omap] in Esc. rewrite Hh in Ehs.
+  pose proof (wf_noslash R Hwf) as Hno.
+  unfold path_kind, reads_scheme, reads_authority.
+  rewrite (path_text_hostless NR Ehs), (path_text_hostless R Hh). rewrite Esc, Ehs, Eab. cbn [is_some orb negb andb].
+  rewrite Eps in *. unfold norm_segs in *. rewrite Hh in *.
+  destruct (absolutePath R) eqn:Ha.
+  - (* absolute path *)
+    cbn [app negb andb] in *. rewrite N.eqb_refl. split; [reflexivity|]. split; [reflexivity|].
+    cbn [starts_with]. rewrite N.eqb_refl. cbn [andb].
+    assert (relative_ref R = false) as Hrel by (unfold relative_ref; rewrite Ha, andb_false_r; reflexivity).
+    rewrite Hrel in *.
+    pose proof (nso_head_ok false false true (pathSegs R) Hno) as Hok.
+    pose proof (norm_segs_of_not_lone false true (pathSegs R)) as Hlone.
+    destruct (norm_segs_of false false true (pathSegs R)) as [|[|c s] [|y r]]; try reflexivity; try congruence.
+    + cbn [forallb head_ok] in Hok. apply andb_prop in Hok. destruct Hok as [Hc _].
+      unfold join_text. cbn [path_pieces concat app starts_with]. apply negb_true_iff in Hc.
+      rewrite N.eqb_sym, Hc. reflexivity.
+    + cbn [forallb head_ok] in Hok. apply andb_prop in Hok. destruct Hok as [Hc _].
+      unfold join_text. cbn [path_pieces concat app starts_with]. apply negb_true_iff in Hc.
+      rewrite N.eqb_sym, Hc. reflexivity.
+  - (* relative-path reference *)
+    cbn [app negb andb] in *.
+    assert (relative_ref R = true) as Hrel by (unfold relative_ref; rewrite Hs, Ha, Hh; reflexivity).
+    rewrite Hrel in *. cbn [andb] in *.
+    pose proof (nso_head_ok true false false (pathSegs R) Hno) as Hok.
+    pose proof (norm_segs_of_not_lone true false (pathSegs R)) as Hlone.
+    pose proof (wf_rootless_first R Hwf Hh Ha) as Hfirst.
+    destruct (pathSegs R) as [|s0 r0] eqn:Ep.
+    { change (norm_segs_of true false false []) with (@nil text). repeat split. }
+    cbn [is_nil negb andb] in Hkc.
+    destruct (norm_segs_of true false false (s0 :: r0)) as [|[|c s] r] eqn:EN.
+    + discriminate Hkc.
+    + destruct r as [|y r]; [exfalso; apply Hlone; reflexivity|discriminate Hke].
+    + cbn [forallb head_ok] in Hok. apply andb_prop in Hok. destruct Hok as [Hc _]. apply negb_true_iff in Hc.
+      destruct s0 as [|c0 s0']; [discriminate Hfirst|].
+      cbn [forallb] in Hno. apply andb_prop in Hno. destruct Hno as [Hc0 _].
+      apply noslash_cons in Hc0. destruct Hc0 as [Hc0 _]. apply N.eqb_neq in Hc0.
+      assert (forall (x : N) (xs : text) (l : list text), exists t, join_text (@cons text (x :: xs) l) = x :: t) as Hj
+        by (intros x xs l; unfold join_text; destruct l; cbn [path_pieces concat app]; eauto).
+      destruct (Hj c s r) as (t & Et). destruct (Hj c0 s0' r0) as (t0 & Et0).
+      rewrite Et, Et0, Hc, Hc0. cbn [starts_with]. rewrite N.eqb_sym, Hc. cbn [andb].
+      split; [reflexivity|split; [exact Hkco|reflexivity]].
+Qed.
+
+(* a witness for each of the four shapes *)
+Lemma kind_cancels_refuted :          (* D7a  "a/.." -> "" *)
+  exists R, parsed "a/.." R /\ wf R = true /\ kf_cancels R = true
+    /\ path_kind R = PRelative /\ path_kind (normalize 63 R) = PEmpty.
+Proof. eexists. split; [vm_compute; reflexivity|]. repeat split. Qed.
+
+Lemma kind_exposes_empty_refuted :    (* D7c  "a/..//b" -> "/b" *)
+  exists R, parsed "a/..//b" R /\ wf R = true /\ kf_cancels R = false /\ kf_exposes_empty R = true
+    /\ path_kind R = PRelative /\ path_kind (normalize 63 R) = PAbsolute
+    /\ to_text (normalize 63 R) = txt "/b".
+Proof. eexists. split; [vm_compute; reflexivity|]. repeat split. Qed.
+
+Lemma kind_exposes_colon_refuted :    (* D7b  "a/../b:c" -> "b:c", read back as scheme "b" *)
+  exists R v, parsed "a/../b:c" R /\ wf R = true /\ kf_exposes_colon R = true
+    /\ reads_scheme R = false /\ reads_scheme (normalize 63 R) = true
+    /\ parse (to_text (normalize 63 R)) = POk v /\ scheme R = None /\ scheme v = Some (txt "b").
+Proof. do 2 eexists. split; [vm_compute; reflexivity|]. repeat split. Qed.
+
+Lemma kind_abs_dslash_refuted :       (* D14  "/..//." -> "//", read back as an empty authority *)
+  exists R v, parsed "/..//." R /\ wf R = true /\ kf_abs_dslash R = true
+    /\ reads_authority R = false /\ reads_authority (normalize 63 R) = true
+    /\ parse (to_text (normalize 63 R)) = POk v /\ is_host_set R = false /\ is_host_set v = true.
+Proof. do 2 eexists. split; [vm_compute; reflexivity|]. repeat split. Qed.
